@@ -188,6 +188,9 @@ fn k_obs_reenter__emit_in_complete() {
   let log = Log::new();
   let again = Flag::new();
   let slot: &'static Slot<Observer<'static, u8>> = Slot::new();
+  // both orders: repeating the SAME terminal first (its own slot may still be present) clears the other slots as a side effect and
+  // would hide a next/error slot that is still armed; trying the OTHER events first would hide a complete slot that is still armed
+  let same_first: bool = kani::any();
   let ob: Observer<'static, u8> = Observer::new(
     move |x: u8| log.push(EV_N | x as u32),
     move |e: RxError| log.push(EV_E | err_id(&e)),
@@ -198,9 +201,15 @@ fn k_obs_reenter__emit_in_complete() {
       if !again.get() {
         again.set(true);
         if let Some(o) = slot.get() {
-          o.complete(); // the same terminal again, first (while its own slot may still be present)
-          o.next(1);
-          o.error(err(2));
+          if same_first {
+            o.complete();
+            o.next(1);
+            o.error(err(2));
+          } else {
+            o.next(1);
+            o.error(err(2));
+            o.complete();
+          }
         }
       }
     },
@@ -216,6 +225,7 @@ fn k_obs_reenter__emit_in_error() {
   let log = Log::new();
   let again = Flag::new();
   let slot: &'static Slot<Observer<'static, u8>> = Slot::new();
+  let same_first: bool = kani::any(); // see k_obs_reenter__emit_in_complete
   let ob: Observer<'static, u8> = Observer::new(
     move |x: u8| log.push(EV_N | x as u32),
     move |e: RxError| {
@@ -223,9 +233,15 @@ fn k_obs_reenter__emit_in_error() {
       if !again.get() {
         again.set(true);
         if let Some(o) = slot.get() {
-          o.error(err(2)); // the same terminal again, first
-          o.next(1);
-          o.complete();
+          if same_first {
+            o.error(err(2));
+            o.next(1);
+            o.complete();
+          } else {
+            o.next(1);
+            o.complete();
+            o.error(err(2));
+          }
         }
       }
     },
